@@ -9,6 +9,7 @@ import (
 	"runtime/debug"
 
 	"github.com/cnotch/ipchub/av/codec"
+	"github.com/cnotch/ipchub/utils/verifhook"
 	"github.com/cnotch/queue"
 	"github.com/cnotch/xlog"
 )
@@ -90,6 +91,7 @@ func (muxer *Muxer) process(vp, ap Packetizer) {
 	}()
 
 	for !muxer.closed {
+		verifhook.Point("tsmuxer.beforePop", 0)
 		f := muxer.recvQueue.Pop()
 		if f == nil {
 			if !muxer.closed {
